@@ -250,6 +250,7 @@ fn eval_inner(target: &str, input: &str) -> Option<String> {
             }
         }
         "default_ns" => c10_default_ns_witness(),
+        "qname_default_ns" => c09_qname_default_ns(),
         "fixed_doc" => c20_fixed_doc(input),
         "html_tree" => htmltree::check(input),
         "nav_axes" => navaxes::check(input),
@@ -368,6 +369,7 @@ fn inputs(target: &str, large: bool) -> Vec<String> {
         }
         "fixed_doc" => { let mut v = Vec::new(); for b in 0..4 { for a in 0..4 { v.push(format!("{} {}", b, a)); } } v }
         "default_ns" => vec!["<a xmlns=\"u\"/> + append(new element b in no namespace)".to_string()],
+        "qname_default_ns" => vec!["<a xmlns=\"u\"/> + append(new element b in no namespace); full_name(b)".to_string()],
         "xhtml_ns" => vec!["<h:p xmlns:h=\"http://www.w3.org/1999/xhtml\"><h:br/></h:p>".to_string()],
         "text_roundtrip_gt" | "cdata_roundtrip" => {
             // bracket / '>' runs first (the ]]> guard and the CDATA splitter), then the general alphabet
@@ -1779,6 +1781,21 @@ mod htmltree {
     }
 }
 
+// (C09 known finding) the qualified name reported for an element in no namespace below a default namespace declaration
+#[allow(dead_code)]
+fn c09_qname_default_ns() -> Option<String> {
+    let mut xot = Xot::new();
+    let root = xot.parse("<a xmlns=\"u\"/>").ok()?;
+    let a = xot.document_element(root).ok()?;
+    let b = xot.add_name("b");
+    let el = xot.new_element(b);
+    xot.append(a, el).ok()?;
+    match xot.full_name(el, b) {
+        Ok(q) if !q.contains(':') => Some(format!("full_name of the no-namespace element b below xmlns=\"u\" is {:?}; an element name without prefix resolves to the default namespace u there", q)),
+        _ => None,
+    }
+}
+
 // (C09) scope queries against nearest-declaration-wins, computed independently from the declarations on the path
 #[allow(dead_code)]
 fn c09_scope(input: &str) -> Option<String> {
@@ -1832,6 +1849,41 @@ fn c09_scope(input: &str) -> Option<String> {
                 Some(pre) => { if !scope.iter().any(|(p2, n)| *p2 == pre && *n == ns) { return Some(format!("layout {} node {}: prefix_for_namespace({:?}) = {:?}, which is not bound to it in scope", input, depth, xot.namespace_str(ns), xot.prefix_str(pre))); } }
                 None => { if exists { return Some(format!("layout {} node {}: prefix_for_namespace({:?}) = None although a prefix is bound to it in scope", input, depth, xot.namespace_str(ns))); } }
             }
+        }
+        // qualified names: the reported name, resolved in the node's scope by the rules for its kind, gives back the
+        // expanded name (an element name without prefix takes the default binding, an attribute name without prefix is
+        // in no namespace); MissingPrefix only when no usable prefix is in scope
+        let default_bound = scope.iter().find(|(p2, _)| *p2 == empty).map(|(_, n)| *n).filter(|n| *n != ns_ids[0]);
+        for nsi in 0..3 {
+            let usable_el = nsi == 0 && default_bound.is_none() || nsi != 0 && scope.iter().any(|(_, n)| *n == ns_ids[nsi]);
+            let usable_at = nsi == 0 || scope.iter().any(|(p2, n)| *n == ns_ids[nsi] && *p2 != empty);
+            // an element in no namespace below a default namespace declaration cannot be named: the qualified-name
+            // functions answer with the bare local name (known finding, mirror image of the C10 finding)
+            if nsi == 0 && default_bound.is_some() { continue; }
+            let el_name = xot.add_name_ns("probe", ns_ids[nsi]);
+            let probe = xot.new_element(el_name);
+            xot.append(*node, probe).ok()?;
+            let at_name = xot.add_name_ns("at", ns_ids[nsi]);
+            let at_node = xot.new_attribute_node(at_name, "v".to_string());
+            xot.any_append(probe, at_node).ok()?;
+            let resolve = |q: &str, element: bool| -> (String, xot::NamespaceId) {
+                match q.split_once(':') {
+                    Some((pre, local)) => { let pid = xot.prefix(pre); (local.to_string(), scope.iter().find(|(p2, _)| Some(*p2) == pid).map(|(_, n)| *n).unwrap_or(ns_ids[0])) }
+                    None => (q.to_string(), if element { default_bound.unwrap_or(ns_ids[0]) } else { ns_ids[0] }),
+                }
+            };
+            use xot::xmlname::NameStrInfo;
+            let el_q = [xot.full_name(probe, el_name).ok(), xot.node_name_ref(probe).ok().flatten().map(|r| r.full_name().to_string())];
+            let at_q = [xot.full_name(at_node, at_name).ok(), xot.node_name_ref(at_node).ok().flatten().map(|r| r.full_name().to_string())];
+            for (kind, qs, element, usable, local) in [("element", el_q, true, usable_el, "probe"), ("attribute", at_q, false, usable_at, "at")] {
+                for q in qs {
+                    match q {
+                        Some(q) => { let (l, n) = resolve(&q, element); if l != local || n != ns_ids[nsi] { return Some(format!("layout {} node {}: the {} {{{}}}{} is reported as {:?}, which resolves to namespace {:?} in its scope", input, depth, kind, xot.namespace_str(ns_ids[nsi]), local, q, xot.namespace_str(n))); } }
+                        None => { if usable { return Some(format!("layout {} node {}: no qualified name for the {} {{{}}}{} although a usable prefix is in scope", input, depth, kind, xot.namespace_str(ns_ids[nsi]), local)); } }
+                    }
+                }
+            }
+            xot.remove(probe).ok()?;
         }
     }
     None
